@@ -2,7 +2,6 @@ package whitespace
 
 import (
 	"strings"
-	"unicode"
 
 	"github.com/ajitpratap0/GoSQLX/pkg/linter"
 	"github.com/ajitpratap0/GoSQLX/pkg/models"
@@ -65,48 +64,75 @@ func NewTrailingWhitespaceRule() *TrailingWhitespaceRule {
 func (r *TrailingWhitespaceRule) Check(ctx *linter.Context) ([]linter.Violation, error) {
 	violations := []linter.Violation{}
 
+	masks, _ := linter.LineMask(ctx.SQL)
+
 	for lineNum, line := range ctx.Lines {
-		// Check if line has trailing whitespace
-		if len(line) == 0 {
+		end := trailingBlankStart(line, maskFor(masks, lineNum))
+		if end < 0 {
 			continue
 		}
 
-		lastChar := rune(line[len(line)-1])
-		if unicode.IsSpace(lastChar) && lastChar != '\n' && lastChar != '\r' {
-			// Find the column where trailing whitespace starts
-			trimmed := strings.TrimRight(line, " \t")
-			column := len(trimmed) + 1
-
-			violations = append(violations, linter.Violation{
-				Rule:       r.ID(),
-				RuleName:   r.Name(),
-				Severity:   r.Severity(),
-				Message:    "Line has trailing whitespace",
-				Location:   models.Location{Line: lineNum + 1, Column: column},
-				Line:       line,
-				Suggestion: "Remove trailing spaces or tabs from the end of the line",
-				CanAutoFix: true,
-			})
-		}
+		violations = append(violations, linter.Violation{
+			Rule:       r.ID(),
+			RuleName:   r.Name(),
+			Severity:   r.Severity(),
+			Message:    "Line has trailing whitespace",
+			Location:   models.Location{Line: lineNum + 1, Column: end + 1},
+			Line:       line,
+			Suggestion: "Remove trailing spaces or tabs from the end of the line",
+			CanAutoFix: true,
+		})
 	}
 
 	return violations, nil
 }
 
-// Fix removes trailing whitespace from all lines in the SQL content.
-//
-// Processes the content line by line, trimming spaces and tabs from the right side
-// of each line. Newlines are preserved. The violations parameter is ignored since
-// the fix is applied uniformly to all lines.
-//
-// This operation is safe to apply automatically and doesn't change SQL semantics.
-//
-// Returns the fixed content with all trailing whitespace removed, and nil error.
+// maskFor returns the code mask of line i (nil when unavailable).
+func maskFor(masks [][]bool, i int) []bool {
+	if i < len(masks) {
+		return masks[i]
+	}
+	return nil
+}
+
+// trailingBlankStart returns the byte index at which the trailing run of spaces
+// and tabs of line starts, or -1 when there is none. A carriage return that ends
+// the line (CRLF files) is not part of the run, and blanks that belong to a
+// string literal, quoted identifier or block comment continuing onto the next
+// line are content, not trailing whitespace.
+func trailingBlankStart(line string, mask []bool) int {
+	end := len(line)
+	if end > 0 && line[end-1] == '\r' {
+		end--
+	}
+	start := end
+	for start > 0 && (line[start-1] == ' ' || line[start-1] == '\t') {
+		if mask != nil && start-1 < len(mask) && !mask[start-1] {
+			break
+		}
+		start--
+	}
+	if start == end {
+		return -1
+	}
+	return start
+}
+
+// Fix removes trailing whitespace from all lines
 func (r *TrailingWhitespaceRule) Fix(content string, violations []linter.Violation) (string, error) {
 	lines := strings.Split(content, "\n")
+	masks, _ := linter.LineMask(content)
 
 	for i, line := range lines {
-		lines[i] = strings.TrimRight(line, " \t")
+		start := trailingBlankStart(line, maskFor(masks, i))
+		if start < 0 {
+			continue
+		}
+		end := len(line)
+		if end > 0 && line[end-1] == '\r' {
+			end--
+		}
+		lines[i] = line[:start] + line[end:]
 	}
 
 	return strings.Join(lines, "\n"), nil
